@@ -48,34 +48,53 @@ LpS         == <<FUint("frag_index", N(82)), FUint("frag_count", N(83)), FBytes(
                  FUint("congestion_mark", N(832)), FBytes("tx_sequence", N(840)), FBytes("ack", N(836)),
                  FBool("non_discovery", N(844)), FBytes("prefix_announcement", N(848)), FBytes("fragment", N(80))>>
 
+\* NDN packet format 0.3 before 2019 (module ndn_format_0_3_2017): ForwardingHint carries Delegations
+Delegation2017S == <<FUint("preference", N(30)), FName("delegation", N(7))>>
+Links2017S      == <<FRep("delegations", FModel("delegations", N(31), Delegation2017S, FALSE))>>
+Interest2017S   == [InterestS EXCEPT ![4] = FModel("forwarding_hint", N(30), Links2017S, FALSE)]
+(* Other public decoders of the same formats, judged in stage C and (the two lp ones) on every enumerated LP sequence:
+     "lp.legacy"  parse_lp_packet     = parse_lp_packet_v2 projected on (NackReason, Fragment)
+     "lp.nack"    parse_network_nack  the same machine without the fragmentation post-check (a fragmented LpPacket
+                  is well-formed; rejecting it is parse_lp_packet_v2's documented "not implemented"), projected on
+                  (NackReason, Fragment), both none when there is no Nack header
+     "interest2017", "data2017"  ndn.encoding.ndn_format_0_3_2017.parse_interest / parse_data                   *)
+ExtraPks == {"lp.legacy", "lp.nack", "interest2017", "data2017"}
 Packets == {"interest", "data", "cert", "lp"}
 (* Nested levels enumerated on their own: the element sequences INSIDE the SignatureInfo of an Interest / Data /
    certificate and inside MetaInfo, each sequence wrapped into a fixed well-formed frame of the parent packet
    (FrameOf) and given to the parent's decoder.  ignore_critical as the format documents it: strict for the
    Interest's SignatureInfo and for MetaInfo, lenient for the Data / certificate SignatureInfo. *)
 NestedPks == {"interest.si", "data.si", "cert.si", "data.meta"}
-SchemaOfPk(pk) == CASE pk = "interest" -> InterestS [] pk = "data" -> DataS [] pk = "cert" -> CertS [] pk = "lp" -> LpS
+SchemaOfPk(pk) == CASE pk = "interest" -> InterestS [] pk \in {"data", "data2017"} -> DataS [] pk = "cert" -> CertS
+                    [] pk \in {"lp", "lp.legacy", "lp.nack"} -> LpS [] pk = "interest2017" -> Interest2017S
                     [] pk \in {"interest.si", "data.si"} -> SigInfoS [] pk = "cert.si" -> CertSigInfoS
                     [] pk = "data.meta" -> MetaInfoS
-IcOfPk(pk)     == pk \in {"lp", "data.si", "cert.si"}
+IcOfPk(pk)     == pk \in {"lp", "lp.legacy", "lp.nack", "data.si", "cert.si"}
 ParentOf(pk)   == CASE pk = "interest.si" -> "interest" [] pk \in {"data.si", "data.meta"} -> "data" [] pk = "cert.si" -> "cert"
 NestedPrefix(pk) == CASE pk = "interest.si" -> "signature_info/" [] pk \in {"data.si", "cert.si"} -> "signature_info/"
                       [] pk = "data.meta" -> "meta_info/" [] OTHER -> ""
-OuterType(pk)  == CASE pk = "interest" -> N(5) [] pk \in {"data", "cert"} -> N(6) [] pk = "lp" -> N(100) [] pk = "name" -> N(7)
+OuterType(pk)  == CASE pk \in {"interest", "interest2017"} -> N(5) [] pk \in {"data", "cert", "data2017"} -> N(6)
+                    [] pk \in {"lp", "lp.legacy", "lp.nack"} -> N(100) [] pk = "name" -> N(7)
 
 \* ------------------------------------------------------------------ what the decoder answers (machine + post-checks)
 NamePresent(out) == out[1].k = "name"
 LpUnsupported(out) == out[1].k # "none" \/ out[2].k # "none"
 Verdict(pk, st) == IF st.status # "accept" THEN "reject"
                    ELSE IF pk \in NestedPks THEN "accept"
-                   ELSE IF pk \in {"interest", "data", "cert"} /\ ~NamePresent(st.out) THEN "reject"
-                   ELSE IF pk = "lp" /\ LpUnsupported(st.out) THEN "reject"
+                   ELSE IF pk \in {"interest", "data", "cert", "interest2017", "data2017"} /\ ~NamePresent(st.out) THEN "reject"
+                   ELSE IF pk \in {"lp", "lp.legacy"} /\ LpUnsupported(st.out) THEN "reject"
                    ELSE "accept"
 Why(pk, st) == IF st.status # "accept" THEN NestedPrefix(pk) \o st.why
                ELSE IF pk \in NestedPks THEN ""
-               ELSE IF pk \in {"interest", "data", "cert"} /\ ~NamePresent(st.out) THEN "missing-name"
-               ELSE IF pk = "lp" /\ LpUnsupported(st.out) THEN "lp-fragmentation-unsupported"
+               ELSE IF pk \in {"interest", "data", "cert", "interest2017", "data2017"} /\ ~NamePresent(st.out) THEN "missing-name"
+               ELSE IF pk \in {"lp", "lp.legacy"} /\ LpUnsupported(st.out) THEN "lp-fragmentation-unsupported"
                ELSE ""
+
+\* (NackReason, Fragment) as parse_lp_packet / parse_network_nack return them; a Nack header without NackReason means reason 0
+NackReasonOf(out) == IF out[4].k = "none" THEN None
+                     ELSE IF out[4].v[1].k = "none" THEN [k |-> "uint", n |-> <<>>] ELSE out[4].v[1]
+LpLegacyOut(out)  == <<NackReasonOf(out), out[13]>>
+NetNackOut(out)   == IF out[4].k = "none" THEN <<None, None>> ELSE <<NackReasonOf(out), out[13]>>
 
 \* ------------------------------------------------------------------ derived pointers (SignaturePtrs of parse_interest / parse_data)
 (* What a strict reading of the format gives for the pointers the decoders return next to the fields:
@@ -92,7 +111,7 @@ Why(pk, st) == IF st.status # "accept" THEN NestedPrefix(pk) \o st.why
 Unspec == [k |-> "unspecified"]
 PosOfField(tk, f) == LET C == {i \in 1 .. Len(tk) : tk[i][1] = f} IN IF C = {} THEN 0 ELSE tk[MinOf(C)][2]
 Ptrs(pk, input, st) ==
-  IF pk = "interest" THEN
+  IF pk \in {"interest", "interest2017"} THEN
     LET comps == st.out[1].comps
         dig   == SelectSeq(comps, LAMBDA x : x.t = N(2))
         pSv   == PosOfField(st.taken, 10)
@@ -102,7 +121,7 @@ Ptrs(pk, input, st) ==
         scn |-> IF pSv # 0 THEN [k |-> "list", items |-> SelectSeq(comps, LAMBDA x : x.t # N(2))] ELSE Unspec,
         scr |-> IF pSv # 0 THEN <<MinOf(late), pSv>> ELSE <<>>,
         dcr |-> IF pApp # 0 THEN <<pApp, Len(input) + 1>> ELSE <<>>]
-  ELSE IF pk = "data" THEN
+  ELSE IF pk \in {"data", "data2017"} THEN
     LET pSv == PosOfField(st.taken, 5) IN
     [dvb |-> Unspec, scn |-> Unspec,
      scr |-> IF pSv # 0 THEN <<MinOf({st.taken[i][2] : i \in 1 .. Len(st.taken)}), pSv>> ELSE <<>>, dcr |-> <<>>]
@@ -202,7 +221,9 @@ InterestBody ==
     SigInfoDup(N(44)), SigInfoOoo(N(44)), SigInfoNcIn(N(44)), Node(N(30), <<NameOk, UnkNonCrit, NameTwo>>),
     \* position of the ParametersSha256DigestComponent in the Name: last / middle / first / twice
     Node(N(7), <<CompA, DigComp>>), Node(N(7), <<CompA, DigComp, CompA>>), Node(N(7), <<DigComp, CompA>>),
-    Node(N(7), <<DigComp, CompA, Leaf(N(2), 32, <<R(187, 32)>>)>>)>>
+    Node(N(7), <<DigComp, CompA, Leaf(N(2), 32, <<R(187, 32)>>)>>),
+    \* fixed-width fields in another legal width are accepted (fixed_len is an encoding rule only)
+    Leaf(N(10), 8, <<R(0, 7), R(5, 1)>>), Leaf(N(10), 1, B(5)), Leaf(N(34), 2, <<R(0, 1), R(7, 1)>>)>>
 InterestTail == <<Bad(Leaf(N(36), 2, <<R(7, 2)>>)), Trunc, Bad(NameOk), Bad(Leaf(N(12), 2, <<R(1, 2)>>)), Bad(SigInfoOk(N(44))),
                   CutLen(36), CutType, Node(N(44), <<Leaf(N(27), 1, B(0)), CutLen(40)>>), Node(N(7), <<CompA, CutLen(8)>>)>>
 
@@ -243,7 +264,11 @@ LpBody ==
     Leaf(N(836), 8, <<R(0, 7), R(2, 1)>>),
     Leaf(N(83), 1, B(1)), Node(N(800), <<Bad(Leaf(N(801), 1, B(150)))>>), Node(N(820), <<Leaf(N(821), 1, B(1))>>),
     Leaf(N(844), 0, <<>>), Leaf(N(848), 2, <<R(6, 1), R(0, 1)>>), Leaf(N(81), 8, <<R(0, 8)>>), Leaf(N(816), 1, B(9)),
-    Leaf(N(80), 0, <<>>)>>
+    Leaf(N(80), 0, <<>>),
+    \* ill-formed children of CachePolicy (820, a strict model): overrun, unknown critical, duplicate, width, cut number
+    Node(N(820), <<Bad(Leaf(N(821), 1, B(1)))>>), Node(N(820), <<Leaf(N(821), 1, B(1)), UnkCrit>>),
+    Node(N(820), <<Leaf(N(821), 1, B(1)), Leaf(N(821), 1, B(2))>>), Node(N(820), <<Leaf(N(821), 3, <<R(0, 3)>>)>>),
+    Node(N(820), <<Cut(<<253, 3>>)>>), Node(N(800), <<Leaf(N(801), 1, B(50)), Leaf(N(801), 1, B(51))>>)>>
 LpTail == <<Bad(Leaf(N(80), 5, <<R(5, 5)>>)), Trunc, Bad(NackOk), Bad(Leaf(N(812), 2, <<R(1, 2)>>)),
             CutLen(80), CutNackLen, CutType, CutLen5(98), Node(N(800), <<CutLen(80)>>), Node(N(800), <<Cut(<<253, 3, 33, 253, 0>>)>>),
             Node(N(800), <<Leaf(N(801), 1, B(150)), CutType>>)>>
@@ -256,7 +281,19 @@ NameTail == <<Bad(Leaf(N(8), 1, B(98))), Trunc, Bad(Leaf(N(8), 0, <<>>)), CutLen
 AddDescOk == Node(N(258), <<Node(N(512), <<Leaf(N(513), 1, B(107)), Leaf(N(514), 1, B(118))>>)>>)
 SigBody == <<Leaf(N(27), 1, B(3)), Node(N(28), <<NameOk>>), Validity, AddDescOk, UnkCrit, UnkNonCrit,
              Leaf(N(40), 2, <<R(1, 1), R(2, 1)>>), Leaf(N(38), 4, <<R(9, 4)>>), Leaf(N(42), 1, B(7)),
-             Leaf(N(27), 3, <<R(0, 3)>>), Node(N(28), <<Leaf(N(29), 2, <<R(5, 2)>>)>>), Node(N(28), <<NameBadComp>>)>>
+             Leaf(N(27), 3, <<R(0, 3)>>), Node(N(28), <<Leaf(N(29), 2, <<R(5, 2)>>)>>), Node(N(28), <<NameBadComp>>),
+             Leaf(N(27), 2, <<R(0, 1), R(3, 1)>>), Leaf(N(40), 8, <<R(0, 7), R(9, 1)>>)>>
+\* ill-formed / unusual children of AdditionalDescription (258) and DescriptionEntry (512): both are strict models
+DEntry(k, v) == Node(N(512), <<Leaf(N(513), 1, B(k)), Leaf(N(514), 1, B(v))>>)
+SigBodyCert == SigBody \o
+  <<Node(N(258), <<DEntry(107, 118), DEntry(108, 119)>>),
+    Node(N(258), <<Node(N(512), <<Leaf(N(513), 1, B(107)), Bad(Leaf(N(514), 1, B(118)))>>)>>),
+    Node(N(258), <<DEntry(107, 118), Bad(DEntry(108, 119))>>),
+    Node(N(258), <<Node(N(512), <<Leaf(N(513), 1, B(107)), Leaf(N(514), 1, B(118)), UnkCrit>>)>>),
+    Node(N(258), <<DEntry(107, 118), UnkCrit>>),
+    Node(N(258), <<Node(N(512), <<Leaf(N(513), 1, B(107)), Leaf(N(513), 1, B(108))>>)>>),
+    Node(N(258), <<Node(N(512), <<Leaf(N(513), 1, B(107)), Cut(<<253, 2, 2, 253>>)>>)>>),
+    Node(N(258), <<Node(N(512), <<>>), Node(N(512), <<Leaf(N(514), 0, <<>>)>>)>>)>>
 \* in an Interest / Data SignatureInfo the two certificate elements are unrecognised (opaque): 253 critical, 258 not
 SigBodyPlain == [SigBody EXCEPT ![3] = Leaf(N(253), 3, <<R(1, 3)>>), ![4] = Leaf(N(258), 2, <<R(2, 2)>>)]
 SigTail == <<Bad(Leaf(N(40), 1, B(9))), CutLen(40)>>
@@ -277,7 +314,7 @@ FrameOf(pk) ==
 
 BodyOf(pk) == CASE pk = "interest" -> InterestBody [] pk = "data" -> DataBody [] pk = "cert" -> CertBody
                 [] pk = "lp" -> LpBody [] pk = "name" -> NameBody
-                [] pk \in {"interest.si", "data.si"} -> SigBodyPlain [] pk = "cert.si" -> SigBody [] pk = "data.meta" -> MetaBody
+                [] pk \in {"interest.si", "data.si"} -> SigBodyPlain [] pk = "cert.si" -> SigBodyCert [] pk = "data.meta" -> MetaBody
 TailAll(pk) == CASE pk = "interest" -> InterestTail [] pk = "data" -> DataTail [] pk = "cert" -> CertTail
                  [] pk = "lp" -> LpTail [] pk = "name" -> NameTail
                  [] pk \in {"interest.si", "data.si", "cert.si"} -> SigTail [] pk = "data.meta" -> MetaTail
